@@ -1,3 +1,4 @@
 /- C04: second HCM pass = steady-state hystereses of the repeated sequence. -/
 import Model.HCMSpec
 import Proofs.C04Periodic
+import Proofs.C04Insert
